@@ -386,4 +386,44 @@ out.append("loop " + RPF + " #0\n"
 out.append("job vm_fn_readpayload_vecf\n  props C02 C04 C10\n  pre vt_p = nondet_uchar(); vt_dl = nondet_ulong(); vt_val = nondet_ulong(); vt_k = nondet_ulong(); vt_pos0 = nondet_ulong();\n"
   "  enforce " + RPF + "\n  loops\n  replace " + U64 + "\n  replace " + F32 + "\n  replace " + PB + "\n  timeout 1800\n"
   "  note unbounded by LOOP CONTRACT: every declared element count up to 2^64-1; termination by the decreases clause\n")
+
+# ---- std::map / std::unordered_map <uint16_t, uint8_t>: the same loop-contract argument for the key / value loop.
+def small_read(ct, tag, maxlen):
+    key = "nop::EncodingIO<%s>::Read<vt::SpecReader>" % ct
+    out.append("contract " + key + "\n"
+      "  requires SR_PRE(reader) && FRESH(value)\n"
+      "  assigns *value, reader->pos, reader->failed, reader->calls\n"
+      "  ensures reader->pos <= reader->len && reader->pos >= OLD(reader->pos) && reader->pos - OLD(reader->pos) <= %d\n"
+      "  ensures ERR(RET) == 0 ==> (reader->failed == 0 && reader->pos - OLD(reader->pos) >= 1)\n"
+      "  ensures (ERR(RET) != 0 && ERR(RET) != E_UnexpectedEncodingType) ==> reader->failed == ERR(RET)\n" % maxlen)
+    out.append("job vm_fn_read_%s_spec\n  props C02 C10\n  enforce %s\n  timeout 900\n  note consumption contract only (the value contract of this function is proved in unit codec_scalar, cs_fn_read_%s)\n" % (tag, key, tag))
+    return key
+RK16 = small_read("unsigned short", "u16", 3)
+RK8 = small_read("unsigned char", "u8", 2)
+def mapread(cxx, tag):
+    em = "%s::emplace(std::pair<unsigned short, unsigned char> &&)" % cxx
+    out.append("contract " + em + "\n"
+      "  requires FRESH(this) && this->size_ < (1UL << 40)\n"
+      "  assigns this->data_, this->size_, VT_G_ALLOC\n"
+      "  ensures this->size_ >= OLD(this->size_) && this->size_ - OLD(this->size_) <= 1 && VT_G_ALLOC == OLD(VT_G_ALLOC) + 4 * (this->size_ - OLD(this->size_))\n")
+    rp = "nop::Encoding<%s>::ReadPayload<vt::SpecReader>" % cxx
+    out.append("contract " + rp + "\n"
+      "  requires SR_PRE(reader) && FRESH(value) && VT_G_ALLOC == 0 && vt_pos0 == reader->pos\n  " + GH + "\n  " + VAL + "\n"
+      "  assigns value->data_, value->size_, reader->pos, reader->failed, reader->calls, VT_G_ALLOC\n"
+      "  ensures reader->pos <= reader->len && reader->pos >= OLD(reader->pos)\n"
+      "  ensures VT_G_ALLOC <= 4 * ((reader->pos - OLD(reader->pos)) / 2)\n"
+      "  ensures ERR(RET) == 0 ==> (reader->failed == 0 && " + HDR + " && vt_val <= VT_MAXLEN / 2 && value->size_ <= vt_val && reader->pos - OLD(reader->pos) - vt_dl >= 2 * vt_val && reader->pos - OLD(reader->pos) - vt_dl <= 5 * vt_val)\n"
+      "  ensures (ERR(RET) != 0 && ERR(RET) != E_UnexpectedEncodingType) ==> reader->failed == ERR(RET)\n"
+      "  ensures (" + nofault(2) + " && " + AVt + " >= 1 && vt_dl == 0) ==> ERR(RET) == E_UnexpectedEncodingType\n")
+    out.append("loop " + rp + " #0\n"
+      "  assigns i, status, value->data_, value->size_, reader->pos, reader->failed, reader->calls, VT_G_ALLOC\n"
+      "  invariant i <= size && i <= VT_MAXLEN / 2 && value->size_ <= i && VT_G_ALLOC <= 4 * i\n"
+      "  invariant reader->failed == 0 && reader->fail_code >= 1 && reader->fail_code <= 18 && reader->pos <= reader->len && reader->len <= VT_MAXLEN\n"
+      "  invariant reader->pos >= vt_pos0 + vt_dl && reader->pos - (vt_pos0 + vt_dl) >= 2 * i && reader->pos - (vt_pos0 + vt_dl) <= 5 * i\n"
+      "  decreases size - i\n")
+    out.append("job vm_fn_readpayload_%s\n  props C02 C10\n  pre vt_p = nondet_uchar(); vt_dl = nondet_ulong(); vt_val = nondet_ulong(); vt_k = nondet_ulong(); vt_pos0 = nondet_ulong();\n"
+      "  enforce " % tag + rp + "\n  loops\n  replace " + U64 + "\n  replace " + RK16 + "\n  replace " + RK8 + "\n  replace " + em + "\n  timeout 1800\n"
+      "  note unbounded by LOOP CONTRACT: every declared pair count up to 2^64-1; an element is only inserted after its key and value were read (>= 2 bytes), so allocation <= 2 x bytes consumed; a read after a failed read violates the callee's precondition\n")
+mapread("std::map<unsigned short, unsigned char>", "map")
+mapread("std::unordered_map<unsigned short, unsigned char>", "umap")
 print("\n".join(out))
